@@ -7,6 +7,7 @@ def run(tier):
     rp = replay.Replay("harness.modes:c12")
     rp.run_lens("gauss_pointwise")
     rp.run_lens("gauss_subs")          # two batch inputs / three real inputs; pairs also in reverse order
+    rp.run_lens("gauss_cat")           # Cat of parts with different ranks / mixtures next to plain Gaussians
     if tier == "thorough":
         rp.run_lens("gauss_pointwise", cfg="gauss_pointwise_deep", limit=40000, timeout=2400)
     out.add_replay(rp, "termmachine")
